@@ -90,10 +90,11 @@ class Graph:
             body = f"return ['S{mid}'] + [F{owner_id}(e) for e in x]"
         else:
             raise ValueError(kind)
-        src = f"def m{mid}(x):\n    __vf.enter({mid}, locals())\n    {body}\n"
+        # every method of every node is written `def f(x)`, the way a user's overloads and variants share one name
+        src = f"def f(x):\n    __vf.enter({mid}, locals())\n    {body}\n"
         ns, file = load_source(src, self.ns, mid=mid, tag=self.tag, shared=True)
         self.files.append(file)
-        fn = ns[f"m{mid}"]
+        fn = ns["f"]
         fn.__annotations__ = {"x": self.env.cls(ms["t"])}
         self.fns[mid] = fn
         self.mspecs[mid] = dict(ms, owner=owner_id)
